@@ -100,7 +100,15 @@ pub struct ReplayFile {
     /// test), so the scenario alone does not reproduce it in a fresh process
     #[serde(default)]
     pub prelude: bool,
+    /// which build of the simulator produced the file: "" = default (tera with `fast_hash`,
+    /// `glob_fs`), "alt" = additionally `unicode`, `no_fmt`, `fast_escape`. A file is only
+    /// replayed by the build that wrote it.
+    #[serde(default)]
+    pub build: String,
 }
+
+/// The build flavour of this binary (see `ReplayFile::build`).
+pub const BUILD: &str = if cfg!(feature = "alt") { "alt" } else { "" };
 
 #[derive(Clone, Debug, Serialize, Deserialize)]
 pub struct WorkerSeg {
